@@ -1425,7 +1425,7 @@ func GenCase(seed int64, idx int, files []*corpus.File) *Case {
 			return genLayoutCase(seed, idx/32, files)
 		default:
 			if (idx/32)%2 == 0 {
-				return genLayoutCase(seed, idx/32+1<<20, files)
+				return genChildCountCase(seed, idx/64, files)
 			}
 			return genCFFDictCase(seed, idx/64, files)
 		}
